@@ -19,7 +19,7 @@ PROPS["C13"] = dict(
     rule="every (K,T): K = each concrete PDU class found in the current headers (default-constructed; RawPDU/PPI from minimal "
          "arguments) and PDUCacher<K>, T = each class with a pdu_flag and PDUCacher<X> of each; on the object alone and inside EthernetII/K; a pair is one "
          "distinct case; all pairs are enumerated (finite space, exhaustive)",
-    floors=dict(any=dict(pairs=10000, objects=100, own_class_checks=100, distinct=10000, first_octet_objects=40000, stacked_cacher_objects=40, dot11_type_subtype_objects=1000, built_objects=1000, parsed_objects=5000, layers_checked=50000)),
+    floors=dict(any=dict(pairs=10000, objects=100, own_class_checks=100, distinct=10000, first_octet_objects=80000, stacked_cacher_objects=40, sliced_copies=8, dot11_type_subtype_objects=1000, built_objects=1000, parsed_objects=5000, layers_checked=50000)),
     assumptions=["class list is produced by scanning the preprocessed headers of the current tree (build/gen_describe.py)",
                  "dynamic_cast is the ground truth for 'really is a T'",
                  "the real find_pdu/tins_cast are executed only when the flag predicate says the cast is valid (otherwise it would be UB); "
